@@ -220,6 +220,12 @@ UC04Clim(u) == {[inp |-> <<In222(a, b)>>,
                  clim |-> [on |-> TRUE, ts |-> Ta, ls |-> La, ss |-> Sa, hasObs |-> FALSE, mo |-> {}, mf |-> f, mode |-> "small", type |-> ty],
                  opt |-> NoOptions]
                  : a \in {{}, {<<1, 1, 2>>}}, b \in {{}, {<<2, 2, 2>>}}, f \in {{}, {<<1, 1, 1>>}}, ty \in {"divide", "subtract"}}
+\* C12: table output: a few of the above plus two inputs whose times straddle year / month / week boundaries
+C12Times == <<TimePool[5], TimePool[1], TimePool[2], TimePool[3], TimePool[4], TimePool[6]>>
+C12Leads == <<LeadPool[1], LeadPool[3], LeadPool[5]>>
+In12(mo, mf) == [ts |-> C12Times, ls |-> C12Leads, ss |-> <<LocPool[2], LocPool[1], LocPool[4]>>, hasObs |-> TRUE, mo |-> mo, mf |-> mf, bump |-> 0]
+UC12(u) == {[inp |-> <<In222(a, {}), In222({}, d)>>, clim |-> NoClimGen, opt |-> NoOptions] : a \in {{}, {p \in P222 : p[1] = 1}}, d \in {{}, {<<1, 2, 1>>}}}
+      \cup {[inp |-> <<In12(a, {}), In12({}, d)>>, clim |-> NoClimGen, opt |-> NoOptions] : a \in {{}, {<<2, 1, 1>>, <<2, 2, 1>>, <<2, 3, 1>>}}, d \in {{<<5, 1, 2>>}}}
 UC04Quick(u) == {x \in UC04(0) : x.inp[2].mo = {} \/ x.inp[1].mf = {}}
 Universe(u) ==
   CASE Family = "C01Full"   -> UC01Full(0)
@@ -235,6 +241,7 @@ Universe(u) ==
     [] Family = "C04"       -> UC04(0)
     [] Family = "C04Quick"  -> UC04Quick(0)
     [] Family = "C04Clim"   -> UC04Clim(0)
+    [] Family = "C12"       -> UC12(0)
     [] Family = "C02Order"  -> UC02Order(0)
     [] Family = "C02Sel"    -> UC02Sel(0)
     [] Family = "C02Repeat" -> UC02Repeat(0)
